@@ -70,16 +70,16 @@ theorem mkVar_eq (n x : Nat) : ExprM.mkVar n x = B.mkVar n x := rfl
 theorem sem_mkTrue (n : Nat) : Sem n (mkTrue n) (fun _ => true) :=
   ⟨(canon_of_true n _ (fun _ => rfl)).symm, fun _ _ _ => rfl⟩
 
-theorem Sem.not {n A f} (h : Sem n A f) : Sem n (bddNot A) (fun v => !f v) := by
+theorem sem_not {n A f} (h : Sem n A f) : Sem n (bddNot A) (fun v => !f v) := by
   refine ⟨?_, ?_⟩
   · rw [h.eq]; exact bddNot_canon n f h.dep
   · intro v w hvw; show (!f v) = (!f w); rw [h.dep v w hvw]
 
-theorem Sem.bin {n A B f g} (hA : Sem n A f) (hB : Sem n B g) (op : Op2) (c : Bool → Bool → Bool)
+theorem sem_bin {n A B f g} (hA : Sem n A f) (hB : Sem n B g) (op : Op2) (c : Bool → Bool → Bool)
     (hc : Consistent op c) : Sem n (applyWithFlip A B op none none none) (fun v => c (f v) (g v)) :=
   Sem.apply hA hB op c hc none (by simp)
 
-theorem Sem.ite {n A B C f g h} (hA : Sem n A f) (hB : Sem n B g) (hC : Sem n C h) :
+theorem sem_ite {n A B C f g h} (hA : Sem n A f) (hB : Sem n B g) (hC : Sem n C h) :
     Sem n (ternaryApply A B C Gen.ite_ none none none none) (fun v => if f v then g v else h v) := by
   refine ⟨?_, ?_⟩
   · rw [ite_eq_canon A B C n hA.wfo hB.wfo hC.wfo]
@@ -114,37 +114,37 @@ theorem evalExpr_sem (vars : List Name) (e : Expr) :
     intro r h
     simp only [evalExpr, Option.map_eq_some_iff] at h
     obtain ⟨a, ha, rfl⟩ := h
-    exact (ih a ha).not
+    exact sem_not (ih a ha)
   | and l r ihl ihr =>
     intro x h
     simp only [evalExpr, Option.bind_eq_some_iff, Option.some.injEq] at h
     obtain ⟨a, ha, b, hb, rfl⟩ := h
-    exact (ihl a ha).bin (ihr b hb) Gen.and_ _ and_consistent
+    exact sem_bin (ihl a ha) (ihr b hb) Gen.and_ _ and_consistent
   | or l r ihl ihr =>
     intro x h
     simp only [evalExpr, Option.bind_eq_some_iff, Option.some.injEq] at h
     obtain ⟨a, ha, b, hb, rfl⟩ := h
-    exact (ihl a ha).bin (ihr b hb) Gen.or_ _ or_consistent
+    exact sem_bin (ihl a ha) (ihr b hb) Gen.or_ _ or_consistent
   | xor l r ihl ihr =>
     intro x h
     simp only [evalExpr, Option.bind_eq_some_iff, Option.some.injEq] at h
     obtain ⟨a, ha, b, hb, rfl⟩ := h
-    exact (ihl a ha).bin (ihr b hb) Gen.xor_ _ xor_consistent
+    exact sem_bin (ihl a ha) (ihr b hb) Gen.xor_ _ xor_consistent
   | imp l r ihl ihr =>
     intro x h
     simp only [evalExpr, Option.bind_eq_some_iff, Option.some.injEq] at h
     obtain ⟨a, ha, b, hb, rfl⟩ := h
-    exact (ihl a ha).bin (ihr b hb) Gen.imp_ _ imp_consistent
+    exact sem_bin (ihl a ha) (ihr b hb) Gen.imp_ _ imp_consistent
   | iff l r ihl ihr =>
     intro x h
     simp only [evalExpr, Option.bind_eq_some_iff, Option.some.injEq] at h
     obtain ⟨a, ha, b, hb, rfl⟩ := h
-    exact (ihl a ha).bin (ihr b hb) Gen.iff_ _ iff_consistent
+    exact sem_bin (ihl a ha) (ihr b hb) Gen.iff_ _ iff_consistent
   | cond c t e ihc iht ihe =>
     intro x h
     simp only [evalExpr, Option.bind_eq_some_iff, Option.some.injEq] at h
     obtain ⟨a, ha, b, hb, d, hd, rfl⟩ := h
-    exact (ihc a ha).ite (iht b hb) (ihe d hd)
+    exact sem_ite (ihc a ha) (iht b hb) (ihe d hd)
 
 /-- `None` exactly when some name of the tree is not in the variable set -/
 theorem evalExpr_none_iff (vars : List Name) (e : Expr) :
